@@ -411,6 +411,10 @@ def thorough_default(ctx):
     from concurrent.futures import ProcessPoolExecutor
     prop = ctx.prop
     extra = {"broken": []}
+    if prop in WITNESS_PROPS:
+        w = run_witnesses(ctx)
+        extra["broken"] += w.pop("broken", [])
+        extra.update(w)
     for mode, label in (("all", "all_targets"), ("release", "release_profile")):
         try:
             bad, n, err, info = _rules_on(REPO, prop, mode)
@@ -456,3 +460,37 @@ def thorough_default(ctx):
         "ok" if not extra.get("release_profile", {}).get("violations") else "VIOLATIONS",
         len(applied), len(detected), (" (missed: %s)" % ", ".join(sorted(set(applied) - set(detected)))) if len(applied) != len(detected) else ""))
     return extra
+
+
+
+WITNESS_PROPS = ("C01", "C10", "C11", "C13")
+
+
+def run_witnesses(ctx):
+    """compile-fail witnesses: programs outside `solution` that must not type-check (cargo +nightly test --doc)"""
+    import re
+    import shutil
+    import tempfile
+    wdir = os.path.join(VERIF, "fixtures", "witness")
+    tgt = tempfile.mkdtemp(prefix="rss-witness-", dir="/var/tmp")
+    try:
+        lock = os.path.join(REPO, "Cargo.lock")
+        if os.path.exists(lock):
+            shutil.copy(lock, os.path.join(wdir, "Cargo.lock"))
+        r = subprocess.run("cargo +nightly test --doc --offline", cwd=wdir, shell=True, text=True,
+                           env=dict(os.environ, CARGO_TARGET_DIR=tgt, CARGO_NET_OFFLINE="true"),
+                           stdout=subprocess.PIPE, stderr=subprocess.STDOUT)
+        out = r.stdout
+        tests = re.findall(r"test src/lib.rs - (\w+) \(line (\d+)\)(?: - compile fail)? \.\.\. (ok|FAILED)", out)
+        res = {}
+        for name, line, st in tests:
+            res.setdefault(name, []).append(st)
+        for name, sts in sorted(res.items()):
+            o = ctx.ob("witness.%s" % name, "compile-fail", "fixtures/witness", "witness %s: the offending program fails to build, its twin builds" % name)
+            ctx.decide(o, all(x == "ok" for x in sts) and len(sts) == 2, "rejected with the expected error code; twin compiles",
+                       "the witness pair no longer behaves as expected (%s): an outside crate can now reach what was private" % sts)
+        if len(res) < 9:
+            return {"broken": ["witness run produced %d of 9 results: %s" % (len(res), out[-300:])], "witnesses": res}
+        return {"witnesses": {k: v for k, v in res.items()}}
+    finally:
+        shutil.rmtree(tgt, ignore_errors=True)
